@@ -18,11 +18,11 @@ func rules(c *core.Ctx) {
 	// the lookup-by-name registry (not used by grpc's codec) skips the later registrations.
 	os.Setenv("GOLANG_PROTOBUF_REGISTRATION_CONFLICT", "ignore")
 	c.Rule("designs: gRPC families over (types) every protobuf-mappable primitive, arrays, maps over every key kind, nested collections, aliases, user types, self-reference, inline objects, OneOf unions x {payload, result} x {required, optional, default, whole payload}; " +
-		"(field numbers) orders, gaps, multi-byte tags, largest, around and inside the reserved range, out of range, negative, duplicate / missing at top level and in nested types, union alternatives; " +
+		"(field numbers) orders, gaps, multi-byte tags, largest, around and inside the reserved range, out of range, negative, duplicate / missing at top level and in nested types, union alternatives, and next to a credential attribute (security scheme jwt / apikey / basic x credential declared first, in the middle, last x numbers right, duplicate, missing); " +
 		"(partition) one attribute in request metadata / response headers / trailers x type x requiredness, renamed keys, everything in metadata; (streaming) the four kinds x element shape x non-streamed payload shape; " +
 		"(validation) keyword x position in message / metadata; every case filtered through goa's own DSL evaluation. " +
 		"Per accepted design: generator run with the stand-in protoc on PATH, every generated .proto parsed again by the check and compared with the design (field numbers, uniqueness, one rpc per method, stream qualifiers). " +
-		"Per method: every candidate value of the type menus (complete product for <= 2 attributes), classified by the reference validator: valid -> generated client -> grpc over bufconn -> generated server -> stub must receive an equal payload / the caller an equal result; " +
+		"Per method: every candidate value of the type menus (complete product for <= 2 attributes; arrays and maps additionally hold every element and key candidate once as a one-element collection), classified by the reference validator: valid -> generated client -> grpc over bufconn -> generated server -> stub must receive an equal payload / the caller an equal result; " +
 		"invalid -> stub not invoked and client error; streaming: all sequences of length 0..2 over 2 values (thorough 0..3 over 3) plus every valid value once, per direction; " +
 		"one case = (method, value or sequence); non-trivial = value set; every case is one end-to-end execution")
 	c.Rule("validated streams (family g-streamval): " + spec.GRPCStreamValidationDoc)
@@ -34,6 +34,7 @@ func rules(c *core.Ctx) {
 	c.Assume("gRPC metadata values are restricted to printable ASCII by the protocol: other strings are outside the alphabet of attributes mapped to metadata / headers / trailers")
 	c.Assume("collections that are nil where required or empty where length-validated are asserted neither valid nor invalid (nil and empty are the same value)")
 	c.Assume("the pb packages of all designs of a family are linked into one driver binary with GOLANG_PROTOBUF_REGISTRATION_CONFLICT=ignore (designs reuse protocol buffer names; messages keep their own descriptors)")
+	c.Assume("a credential attribute without a field number travels as request metadata under a key goa chooses (not asserted); credential values containing white space are outside the alphabet (the scheme prefix of \"<scheme> <credentials>\" is removed by design: C06)")
 	c.Assume("only the gen command is run: the example server goa writes for a gRPC-only design is outside this property")
 	c.Assume("gRPC streams do not transmit the view of a multi-view result: the service selects it with the server stream's SetView and the caller of the generated client stream states the same view with the client stream's SetView")
 	c.Assume("validated streams: Int / UInt numbers beyond 32 bits are replaced by the 32-bit extremes (the 32-bit mapping of Int is reported by the g-types family)")
